@@ -759,31 +759,66 @@ Section EditScript.
     lia.
   Qed.
   (** [no_accident] is decidable by enumeration (used for the concrete
-      instance in Properties/C16.v). *)
-  Definition sum_matchb (e : option sumbuf) (s1 : Z) (s2 : list Z) : bool :=
-    match e with Some (a, c) => (a =? s1) && list_eqb c s2 | None => false end.
+      instance in Properties/C16.v and, extracted, by the harness component
+      editbound).  One pass over the suffixes of the target; the window's sums
+      are computed once per offset. *)
+  Definition sum_matchb (e : sumbuf) (s1 : Z) (s2 : list Z) : bool :=
+    (fst e =? s1) && list_eqb (snd e) s2.
+  Definition check_at (p : Z) (w : list Z) : bool :=
+    let w1 := checksum1 w in
+    let w2 := strong H seed h w in
+    forallb (fun ie => if (block_len h (Z.of_nat (fst ie)) =? h_blen h) && sum_matchb (snd ie) w1 w2
+                       then start p else true)
+            (combine (seq 0 (length sums)) sums).
+  Fixpoint na_scan (k : nat) (cur : list Z) (p : Z) : bool :=
+    match k with
+    | O => true
+    | S k' => check_at p (takeZ (h_blen h) cur) && na_scan k' (tl cur) (p + 1)
+    end.
   Definition no_accident_check : bool :=
-    forallb (fun pn => let p := Z.of_nat pn in
-       forallb (fun i_n => let i := Z.of_nat i_n in
-          implb ((block_len h i =? h_blen h) &&
-                 sum_matchb (nth_error sums i_n) (checksum1 (window h target p))
-                            (strong H seed h (window h target p)))
-                (start p))
-         (seq 0 (length sums)))
-     (seq 0 (Z.to_nat (size - h_blen h + 1))).
+    na_scan (Z.to_nat (size - h_blen h + 1)) target 0.
+
+  Lemma in_combine_seq {A} (l : list A) : forall k i e,
+    nth_error l i = Some e -> In ((k + i)%nat, e) (combine (seq k (length l)) l).
+  Proof.
+    clear Hn Hb Hcount Hrem Hsums Hok Hsize Hchunk.
+    induction l as [|x l IH]; intros k i e Hnth0; [destruct i; discriminate|].
+    cbn [length seq combine]. destruct i as [|i]; cbn [nth_error] in Hnth0.
+    - inversion Hnth0; subst. left. f_equal. lia.
+    - right. replace (k + S i)%nat with (S k + i)%nat by lia. now apply IH.
+  Qed.
+
+  Lemma tl_dropZ p (l : list Z) : 0 <= p -> tl (dropZ p l) = dropZ (p + 1) l.
+  Proof.
+    clear Hn Hb Hcount Hrem Hsums Hok Hsize Hchunk.
+    intros Hp. rewrite <- (dropZ_dropZ 1 p l) by lia.
+    destruct (dropZ p l) as [|x r]; [reflexivity|]. rewrite dropZ_skipn. reflexivity.
+  Qed.
+
+  Lemma na_scan_spec k : forall cur p, 0 <= p -> cur = dropZ p target -> na_scan k cur p = true ->
+    forall q, p <= q < p + Z.of_nat k -> check_at q (window h target q) = true.
+  Proof.
+    clear Hn Hb Hcount Hrem Hsums Hok Hsize Hchunk.
+    induction k as [|k IH]; intros cur p Hp Hcur Hs q Hq; [lia|].
+    cbn [na_scan] in Hs. apply andb_true_iff in Hs. destruct Hs as [H0 Hr].
+    destruct (Z.eq_dec q p) as [->|Hne].
+    - unfold window. rewrite <- Hcur. exact H0.
+    - apply (IH (tl cur) (p + 1)); [lia| |exact Hr|lia].
+      rewrite Hcur. apply tl_dropZ. exact Hp.
+  Qed.
 
   Lemma no_accident_by_check : no_accident_check = true -> no_accident.
   Proof.
     clear Hn Hb Hcount Hrem Hsums Hok Hsize Hchunk.
     intros Hc p i Hp Hps Hi Hbl Hnth. unfold no_accident_check in Hc.
-    rewrite forallb_forall in Hc. specialize (Hc (Z.to_nat p)).
-    assert (Hinp : In (Z.to_nat p) (seq 0 (Z.to_nat (size - h_blen h + 1)))) by (apply in_seq; lia).
-    specialize (Hc Hinp). cbv zeta in Hc.
-    rewrite forallb_forall in Hc. specialize (Hc (Z.to_nat i)).
-    assert (Hini : In (Z.to_nat i) (seq 0 (length sums))).
-    { apply in_seq. split; [lia|]. cbn. apply nth_error_Some. rewrite Hnth. discriminate. }
-    specialize (Hc Hini). rewrite !Z2Nat.id in Hc by lia.
-    rewrite Hbl, Z.eqb_refl, Hnth in Hc. cbn [sum_matchb andb] in Hc.
-    rewrite Z.eqb_refl, list_eqb_refl in Hc. cbn [andb implb] in Hc. exact Hc.
+    pose proof (na_scan_spec _ target 0 ltac:(lia) ltac:(now rewrite dropZ_0) Hc p ltac:(lia)) as Hat.
+    unfold check_at in Hat. cbv zeta in Hat. rewrite forallb_forall in Hat.
+    specialize (Hat (Z.to_nat i, (checksum1 (window h target p), strong H seed h (window h target p)))).
+    assert (Hin : In (Z.to_nat i, (checksum1 (window h target p), strong H seed h (window h target p)))
+                     (combine (seq 0 (length sums)) sums)).
+    { apply (in_combine_seq sums 0 (Z.to_nat i)). exact Hnth. }
+    specialize (Hat Hin). cbn [fst snd] in Hat. rewrite Z2Nat.id in Hat by lia.
+    rewrite Hbl, Z.eqb_refl in Hat. unfold sum_matchb in Hat. cbn [fst snd andb] in Hat.
+    rewrite Z.eqb_refl, list_eqb_refl in Hat. cbn [andb] in Hat. exact Hat.
   Qed.
 End EditScript.
